@@ -22,7 +22,7 @@ KEYS = {1: "is_written_first/partial-array-write",
         2: "is_written_first/do-variable-read-by-own-bounds",
         3: "is_written_first/conditional-write"}
 
-HEADER = """From Coq Require Import List ZArith Bool. Import ListNotations.
+HEADER = """From Coq Require Import List ZArith Bool String. Import ListNotations.
 From PV Require Import Fort.Syntax Fort.Sem C11.Access C12.InOut.
 Open Scope Z_scope.
 (* one case = a region with its variants (option, reported inputs, reported outputs, culprit variables);
@@ -31,7 +31,7 @@ Definition variant := (bool * bool * list name * list name * list name)%type.
 Definition eval_variant (xs : list xstmt) (arrs : list name) (v : variant) : bool * bool * bool * list nat :=
   match v with (sh, answered, ins, outs, cs) =>
     let r := core_of xs in let nc := negb (has_call xs) in
-    (if answered then accs_ok sh r && xio_agrees (xs, sh, ins, outs) else negb (accs_ok sh r),
+    (if answered then xs_ok sh xs && xio_agrees (xs, sh, ins, outs) else negb (xs_ok sh xs),
      nc && (if sh then safe_ext sh r else safe sh r), nc && reads_safe sh r, map (xreason sh xs arrs) cs) end.
 Definition eval_case (c : list xstmt * list name * list variant) :=
   match c with (xs, arrs, vs) => map (eval_variant xs arrs) vs end.
@@ -222,6 +222,48 @@ class Gen12(fortgen.Gen):
                 args.append(("bin", "Add", self.ref(env), ("lit", 1)))
         return ("call", "foo", args)
 
+    ARR_INTR = ("RESHAPE", "TRANSPOSE", "SPREAD", "PACK", "MATMUL", "SUM", "MAXVAL", "MINVAL", "PRODUCT", "DOT_PRODUCT")
+
+    def wop(self, src=None):
+        """a whole-array statement; src = array that must be the FIRST argument of the (outermost) intrinsic"""
+        r = self.r
+        one = [x for x in sorted(self.arrays) if len(self.arrays[x]) == 1]
+        two = [x for x in sorted(self.arrays) if len(self.arrays[x]) == 2]
+        y = src or r.choice(one)
+        x = r.choice([v for v in one if v != y] or one)
+        sc = r.choice(["s", "t", "m"])
+        V, L = (lambda n: ("var", n)), (lambda z: ("lit", z))
+
+        def I(f, *a):
+            return ("wintr", f, list(a))
+        forms = [(x, I("PACK", V(y), ("bin", "Gt", V(y), L(0)))), (sc, I("SUM", V(y))), (sc, I("MAXVAL", V(y))),
+                 (sc, I("MINVAL", V(y))), (sc, I("PRODUCT", V(y))), (sc, I("DOT_PRODUCT", V(y), V(x))),
+                 (x, I("SPREAD", V(y), L(1), L(2))), (x, I("RESHAPE", V(y), I("SHAPE", V(x)))),
+                 (sc, I("SIZE", V(y))), (x, I("LBOUND", V(y))), (x, I("UBOUND", V(y))), (x, I("SHAPE", V(y))),
+                 (sc, ("bin", "Add", I("SIZE", V(y)), I("SUM", V(x))))]
+        if two:
+            dd = r.choice(two)
+            forms += [(dd, I("RESHAPE", V(y), V(x))), (dd, I("MATMUL", V(y), V(dd))), (dd, I("TRANSPOSE", V(y))),
+                      (x, I("SHAPE", V(dd)))]
+        if src is None:
+            forms += [(x, L(0)), (x, ("bin", "Add", V(y), L(1))), (sc, I("SIZE", V(x), L(1)))]
+            if two:
+                forms += [(dd, I("TRANSPOSE", V(dd))), (dd, I("MATMUL", V(dd), V(dd)))]
+        lhs, e = r.choice(forms)
+        return ("wop", lhs, lhs in self.arrays and r.random() < 0.5, e)
+
+    def wop_then_overwrite(self):
+        """an array used only as the first argument of an intrinsic and overwritten afterwards (or before)"""
+        r = self.r
+        one = [x for x in sorted(self.arrays) if len(self.arrays[x]) == 1]
+        v = r.choice(one)
+        w = ("wop", v, r.random() < 0.5, ("lit", 0)) if r.random() < 0.7 else \
+            ("assign", v, [("lit", self.arrays[v][0][0])], ("lit", 0))
+        use = self.wop(src=v)
+        if use[1] == v:
+            return [use]
+        return [use, w] if r.random() < 0.75 else [w, use]
+
     def call_with_partial_write(self):
         """a partial write of an array before / after a call that receives the same array"""
         r = self.r
@@ -276,17 +318,136 @@ end subroutine inc_elem
 KNOWN_CALLEES = ("inc_all", "rd_two", "set_one", "inc_elem", "foo")
 
 
-def xstmts_from_psyir(nodes):
+_STD_INQ = None
+
+
+def std_inquiry():
+    """names the frozen table coq/C12/IntrTable.v classifies as inquiry functions (single source: the Coq file)"""
+    global _STD_INQ
+    if _STD_INQ is None:
+        txt = (core.COQ / "C12" / "IntrTable.v").read_text()
+        _STD_INQ = {n for n, f in re.findall(r'\("([A-Z0-9_]+)", (true|false)\)', txt) if f == "true"}
+    return _STD_INQ
+
+
+_ARRAYS = set()      # names declared as arrays in the routine being serialised (the frontend types arrays with a
+#                       negative lower bound as UnsupportedFortranType, so the symbol type cannot be used)
+
+
+def _is_array_ref(node):
+    from psyclone.psyir.nodes import Reference
+    return type(node) is Reference and node.name.lower() in _ARRAYS
+
+
+def _is_wop(n):
+    """an assignment that operates on whole arrays / uses intrinsics outside the MiniFortran core"""
+    from psyclone.psyir.nodes import Assignment, ArrayReference, IntrinsicCall, Range, Reference
+    if not isinstance(n, Assignment):
+        return False
+    if _is_array_ref(n.lhs) or (isinstance(n.lhs, ArrayReference) and any(isinstance(c, Range) for c in n.lhs.children)):
+        return True
+    for ic in n.rhs.walk(IntrinsicCall):
+        nm = ic.intrinsic.name
+        if nm not in mf.INTRS or (nm in ("SIZE", "LBOUND", "UBOUND") and len(ic.arguments) != 2):
+            return True
+    for ref in n.rhs.walk(Reference):
+        if _is_array_ref(ref) and not (isinstance(ref.parent, IntrinsicCall) and ref.parent.arguments
+                                       and ref is ref.parent.arguments[0]
+                                       and ref.parent.intrinsic.name in ("SIZE", "LBOUND", "UBOUND")):
+            return True
+    return False
+
+
+def wexpr_from_psyir(node):
+    from psyclone.psyir import nodes as N
+    if isinstance(node, N.Literal):
+        return mf._lit(node)
+    if type(node) is N.Reference:
+        return ("var", node.name.lower())
+    if isinstance(node, N.BinaryOperation) and node.operator.name in mf.BINOPS:
+        return ("bin", mf.BINOPS[node.operator.name], wexpr_from_psyir(node.children[0]), wexpr_from_psyir(node.children[1]))
+    if isinstance(node, N.IntrinsicCall) and not any(node.argument_names):
+        return ("wintr", node.intrinsic.name, [wexpr_from_psyir(a) for a in node.arguments])
+    raise mf.OutOfSubset("whole-array expression node %s" % type(node).__name__)
+
+
+def wop_from_psyir(n):
+    from psyclone.psyir.nodes import ArrayReference, Range, Reference
+    lhs = n.lhs
+    if type(lhs) is Reference:
+        return ("wop", lhs.name.lower(), False, wexpr_from_psyir(n.rhs))
+    if isinstance(lhs, ArrayReference) and all(isinstance(c, Range) for c in lhs.children) and \
+            all(lhs.is_full_range(i) for i in range(len(lhs.children))):
+        return ("wop", lhs.name.lower(), True, wexpr_from_psyir(n.rhs))
+    raise mf.OutOfSubset("whole-array lhs")
+
+
+def xstmts_from_psyir(nodes, arrays=()):
     from psyclone.psyir.nodes import Call, IntrinsicCall
+    _ARRAYS.clear()
+    _ARRAYS.update(arrays)
     out = []
     for n in nodes:
         if isinstance(n, Call) and not isinstance(n, IntrinsicCall):
             if any(n.argument_names) or n.routine.name.lower() not in KNOWN_CALLEES:
                 raise mf.OutOfSubset("call " + n.routine.name)
             out.append(("call", n.routine.name.lower(), [mf.expr_from_psyir(a) for a in n.arguments]))
+        elif _is_wop(n):
+            out.append(wop_from_psyir(n))
         else:
             out.append(mf.stmt_from_psyir(n))
     return out
+
+
+def wexpr_to_coq(e, nm):
+    k = e[0]
+    if k == "lit":
+        return "(WLit (%d))" % e[1]
+    if k == "var":
+        return "(WRef %d%%nat)" % nm.get(e[1])
+    if k == "bin":
+        return "(WBin %s %s)" % (wexpr_to_coq(e[2], nm), wexpr_to_coq(e[3], nm))
+    if k == "wintr":
+        return '(WIntr "%s"%%string [%s])' % (e[1], "; ".join(wexpr_to_coq(a, nm) for a in e[2]))
+    raise ValueError(e)
+
+
+def wexpr_to_fortran(e):
+    k = e[0]
+    if k == "lit":
+        return str(e[1]) if e[1] >= 0 else "(%d)" % e[1]
+    if k == "var":
+        return e[1]
+    if k == "bin":
+        return "(%s %s %s)" % (wexpr_to_fortran(e[2]), mf.F_BIN[e[1]], wexpr_to_fortran(e[3]))
+    if k == "wintr":
+        return "%s(%s)" % (e[1], ", ".join(wexpr_to_fortran(a) for a in e[2]))
+    raise ValueError(e)
+
+
+def wexpr_names(e, acc):
+    if e[0] == "var":
+        acc.add(e[1])
+    elif e[0] == "bin":
+        wexpr_names(e[2], acc)
+        wexpr_names(e[3], acc)
+    elif e[0] == "wintr":
+        for a in e[2]:
+            wexpr_names(a, acc)
+    return acc
+
+
+def wexpr_data_reads(e, acc):
+    """variables whose VALUES the expression reads (the first argument of a standard inquiry function is not read)"""
+    if e[0] == "var":
+        acc.append(e[1])
+    elif e[0] == "bin":
+        wexpr_data_reads(e[2], acc)
+        wexpr_data_reads(e[3], acc)
+    elif e[0] == "wintr":
+        for a in (e[2][1:] if e[1] in std_inquiry() else e[2]):
+            wexpr_data_reads(a, acc)
+    return acc
 
 
 def xstmts_to_coq(xs, nm):
@@ -294,16 +455,21 @@ def xstmts_to_coq(xs, nm):
     for s in xs:
         if s[0] == "call":
             items.append("(XCall [%s])" % "; ".join(mf.expr_to_coq(a, nm) for a in s[2]))
+        elif s[0] == "wop":
+            items.append("(XWop %d%%nat %s %s)" % (nm.get(s[1]), "true" if s[2] else "false", wexpr_to_coq(s[3], nm)))
         else:
             items.append("(XCore %s)" % mf.stmt_to_coq(s, nm))
     return "[" + "; ".join(items) + "]"
 
 
-def xstmts_to_fortran(xs):
+def xstmts_to_fortran(xs, rank=None):
     lines = []
     for s in xs:
         if s[0] == "call":
             lines.append("  call %s(%s)" % (s[1], ", ".join(mf.expr_to_fortran(a) for a in s[2])))
+        elif s[0] == "wop":
+            lhs = s[1] + ("(%s)" % ", ".join(":" * (rank or {}).get(s[1], 1)) if s[2] else "")
+            lines.append("  %s = %s" % (lhs, wexpr_to_fortran(s[3])))
         else:
             lines += mf.stmts_to_fortran([s])
     return lines
@@ -313,7 +479,17 @@ def routine_text(xs, decls):
     lines = ["module m", "contains", "subroutine sub()"]
     for v, ty, bs in decls:
         lines.append("  %s%s :: %s" % (ty, (", dimension(%s)" % ", ".join("%d:%d" % b for b in bs)) if bs else "", v))
-    return "\n".join(lines + xstmts_to_fortran(xs) + ["end subroutine sub"]) + "\n" + CALLEES + "end module m\n"
+    rank = {v: len(bs) for v, ty, bs in decls if bs}
+    return "\n".join(lines + xstmts_to_fortran(xs, rank) + ["end subroutine sub"]) + "\n" + CALLEES + "end module m\n"
+
+
+def run_translator():
+    """regenerate coq/C12/GenTables.v (is_inquiry flags of the tree under test); fail-closed"""
+    import importlib.util
+    spec = importlib.util.spec_from_file_location("props_C12_translate", core.VERIF / "props" / "C12" / "translate.py")
+    mod = importlib.util.module_from_spec(spec)
+    spec.loader.exec_module(mod)
+    return mod.generate()
 
 
 def find_sub(psy):
@@ -322,7 +498,8 @@ def find_sub(psy):
 
 
 def has_call(xs):
-    return any(s[0] == "call" for s in xs)
+    """statements whose semantics is supplied by expansion (calls, whole-array statements)"""
+    return any(s[0] in ("call", "wop") for s in xs)
 
 
 def _inc(ref):
@@ -333,6 +510,20 @@ def expand_calls(xs, bnds):
     """the statements a region amounts to for array extents `bnds` (calls replaced by what the callee does)"""
     out = []
     for s in xs:
+        if s[0] == "wop":
+            # conservative whole-array semantics: read every element of every array (and every scalar) whose value
+            # the right-hand side uses, then write every element of the left-hand side
+            def refs(v):
+                return [("idx", v, [("lit", i) for i in l[1]]) for l in locations(v, bnds)] if v in bnds else [("var", v)]
+            rd = [x for v in dict.fromkeys(wexpr_data_reads(s[3], [])) for x in refs(v)]
+            tg = refs(s[1])
+            e0 = ("lit", 1)
+            for x in rd:
+                e0 = ("bin", "Add", e0, x)
+            for k, t in enumerate(tg):
+                rhs = e0 if k == 0 else ("bin", "Add", tg[0], ("lit", k))
+                out.append(("assign", t[1], t[2] if t[0] == "idx" else [], rhs))
+            continue
         if s[0] != "call":
             out.append(s)
             continue
@@ -553,6 +744,256 @@ def check_region(region, ins, outs, vals, bnds, allvars, vary_extents):
     return bad
 
 
+# ------------------------------------------------------------------ call-tree stream (non-local / module variables)
+CT_HEADER = """From Coq Require Import List ZArith Bool String. Import ListNotations.
+From PV Require Import Fort.Syntax Fort.Sem C11.Access C12.InOut C12.CallTree.
+Open Scope Z_scope.
+"""
+CT_GLOBALS = {"ma_mod": (["g1", "g2"], {"ga": [(1, 4)]}), "mb_mod": (["g3", "g4"], {"gb": [(1, 4)]})}
+CT_ROUTINES = [("kern", "ma_mod"), ("ha1", "ma_mod"), ("ha2", "ma_mod"), ("hb1", "mb_mod"), ("hb2", "mb_mod")]
+
+
+class GenCT:
+    """programs of two modules with module variables; the entry routine `kern` and up to four helpers without
+    arguments read / write those variables in different orders and call each other (acyclic, up to 3 levels)"""
+
+    ALL_SCAL = ["g1", "g2", "g3", "g4"]
+    ALL_ARRS = {"ga": [(1, 4)], "gb": [(1, 4)]}
+
+    def __init__(self, rng):
+        self.r = rng
+        self.visible("ma_mod")
+
+    def visible(self, mod):
+        """ma_mod imports everything of mb_mod; mb_mod sees only its own variables"""
+        if mod == "ma_mod":
+            self.scal, self.arrs = list(self.ALL_SCAL), dict(self.ALL_ARRS)
+        else:
+            self.scal, self.arrs = ["g3", "g4"], {"gb": [(1, 4)]}
+
+    def ref(self):
+        a = self.r.choice(sorted(self.arrs))
+        return ("idx", a, [("lit", self.r.randint(1, 4))])
+
+    def expr(self, d=0):
+        r = self.r
+        c = r.random()
+        if d >= 2 or c < 0.35:
+            c2 = r.random()
+            return ("lit", r.randint(0, 4)) if c2 < 0.3 else ("var", r.choice(self.scal)) if c2 < 0.75 else self.ref()
+        return ("bin", r.choice(["Add", "Sub", "Mul"]), self.expr(d + 1), self.expr(d + 1))
+
+    def assign(self):
+        r = self.r
+        c = r.random()
+        if c < 0.6:
+            x = r.choice(self.scal)
+            e = self.expr()
+            return ("assign", x, [], ("bin", "Add", ("var", x), e) if r.random() < 0.3 else e)
+        t = self.ref()
+        return ("assign", t[1], t[2], self.expr())
+
+    def body(self, idx, used):
+        r = self.r
+        out = []
+        later = list(range(idx + 1, len(CT_ROUTINES)))
+        for _ in range(r.randint(1, 4)):
+            c = r.random()
+            if c < 0.3 and later:
+                k = r.choice(later)
+                used.add(k)
+                out.append(("callg", CT_ROUTINES[k][0]))
+            elif c < 0.42:
+                out.append(("if", ("bin", "Gt", ("var", r.choice(self.scal)), ("lit", 1)), [self.assign()], []))
+            else:
+                out.append(self.assign())
+        return out
+
+    def program(self):
+        """-> {routine name: body}; targeted: one variable read first in one routine and overwritten in another"""
+        r = self.r
+        used = {0}
+        bodies = {}
+        for i, (nm, mod) in enumerate(CT_ROUTINES):
+            self.visible(mod)
+            bodies[nm] = self.body(i, used)
+        self.visible("ma_mod")
+        if r.random() < 0.5:
+            k = r.randint(1, len(CT_ROUTINES) - 1)
+            helper = CT_ROUTINES[k][0]
+            v = r.choice(self.scal if CT_ROUTINES[k][1] == "ma_mod" else ["g3", "g4"])
+            bodies[helper] = [("assign", v, [], ("lit", r.randint(0, 5)))] + bodies[helper][:1]
+            rd = ("assign", r.choice([x for x in self.scal if x != v]), [], ("bin", "Add", ("var", v), ("lit", 1)))
+            bodies["kern"] = ([rd, ("callg", helper)] if r.random() < 0.5 else [("callg", helper), rd]) + bodies["kern"][:2]
+        return bodies
+
+    def store(self):
+        r = self.r
+        vals = {(v, ()): r.randint(-3, 6) for v in self.ALL_SCAL}
+        for a, bs in self.ALL_ARRS.items():
+            for i in range(bs[0][0], bs[0][1] + 1):
+                vals[(a, (i,))] = r.randint(-4, 9)
+        return vals
+
+
+def ct_body_fortran(body):
+    lines = []
+    for s in body:
+        if s[0] == "callg":
+            lines.append("    call %s()" % s[1])
+        else:
+            lines += ["  " + ln for ln in mf.stmts_to_fortran([s])]
+    return lines
+
+
+def ct_module_text(mod, bodies):
+    scal, arrs = CT_GLOBALS[mod]
+    lines = ["module %s" % mod]
+    if mod == "ma_mod":
+        lines.append("  use mb_mod, only : g3, g4, gb, hb1, hb2")
+    lines += ["  implicit none", "  integer :: %s" % ", ".join(scal)]
+    lines += ["  integer, dimension(%d:%d) :: %s" % (bs[0][0], bs[0][1], a) for a, bs in arrs.items()]
+    lines.append("contains")
+    for nm, m in CT_ROUTINES:
+        if m == mod:
+            lines += ["  subroutine %s()" % nm] + ct_body_fortran(bodies[nm]) + ["  end subroutine %s" % nm]
+    return "\n".join(lines + ["end module %s" % mod]) + "\n"
+
+
+def ct_reachable(bodies):
+    seen, todo = [], ["kern"]
+    while todo:
+        n = todo.pop()
+        if n in seen:
+            continue
+        seen.append(n)
+
+        def calls(ss):
+            for s in ss:
+                if s[0] == "callg":
+                    yield s[1]
+                elif s[0] == "if":
+                    yield from calls(s[2])
+                    yield from calls(s[3])
+        todo += list(calls(bodies[n]))
+    return seen
+
+
+def ct_inline(bodies, name):
+    out = []
+    for s in bodies[name]:
+        if s[0] == "callg":
+            out += ct_inline(bodies, s[1])
+        elif s[0] == "if":
+            out.append(("if", s[1], ct_inline({"_": s[2]}, "_") if not any(x[0] == "callg" for x in s[2]) else s[2], s[3]))
+        else:
+            out.append(s)
+    return out
+
+
+def ct_impl(dirpath):
+    """the implementation's non-local inputs / outputs of routine kern (what get_non_local_read_write_info does for a
+    kernel: get_non_local_symbols(routine) resolved by _resolve_calls_and_unknowns)"""
+    import contextlib
+    import io
+    from psyclone.parse import ModuleManager
+    from psyclone.psyir.tools import CallTreeUtils, ReadWriteInfo
+    ModuleManager._instance = None
+    mm = ModuleManager.get()
+    mm.add_search_path(str(dirpath))
+    try:
+        kern = mm.get_module_info("ma_mod").get_psyir().get_routine_psyir("kern")
+        ctu = CallTreeUtils()
+        rw = ReadWriteInfo()
+        buf = io.StringIO()
+        with contextlib.redirect_stdout(buf):
+            ctu._resolve_calls_and_unknowns(ctu.get_non_local_symbols(kern), rw)
+    finally:
+        ModuleManager._instance = None
+    return (sorted(str(sig).lower() for _, sig in rw.read_list), sorted(str(sig).lower() for _, sig in rw.write_list),
+            buf.getvalue())
+
+
+def calltree_stream(ctx):
+    rng = ctx.rng("calltree")
+    nprog = ctx.pick(40, 500)
+    nstores = ctx.pick(3, 5)
+    globals_ = ["g1", "g2", "g3", "g4", "ga", "gb"]
+    arrs = {"ga": [(1, 4)], "gb": [(1, 4)]}
+    nm = mf.Names(globals_)
+    cases, metas = [], []
+    for pi in range(nprog):
+        g = GenCT(rng)
+        bodies = g.program()
+        d = ctx.scratch / "ct" / ("p%d" % pi)
+        d.mkdir(parents=True, exist_ok=True)
+        texts = {}
+        for mod in CT_GLOBALS:
+            texts[mod] = ct_module_text(mod, bodies)
+            (d / (mod + ".f90")).write_text(texts[mod])
+        ins, outs, msgs = ct_impl(d)
+        if msgs.strip():
+            ctx.hist("calltree_messages", msgs.strip()[:60])
+        reach = ct_reachable(bodies)
+        sem = ct_inline(bodies, "kern")
+        fails, seen, ran = [], set(), False
+        for si in range(nstores):
+            vals = g.store()
+            res = check_region(sem, set(ins), set(outs), vals, arrs, globals_, False)
+            if res is None:
+                continue
+            ran = True
+            for culprit, what, detail in res:
+                if (culprit, what) not in seen:
+                    seen.add((culprit, what))
+                    fails.append((culprit, what, detail, sorted(vals.items())))
+        culprits = [c if c in nm.ids else None for c, _, _, _ in fails]
+
+        def rcoq(body):
+            items = []
+            for s in body:
+                items.append("(XCall [])" if s[0] == "callg" else "(XCore %s)" % mf.stmt_to_coq(
+                    s if s[0] != "if" else ("if", s[1], [x for x in s[2] if x[0] != "callg"], s[3]), nm))
+            return "[" + "; ".join(items) + "]"
+        nl = lambda xs: core.coq_list("%d%%nat" % nm.get(x) for x in xs)
+        cases.append("(%s, %s, %s, %s, %s, %s)" % (core.coq_list(rcoq(bodies[r]) for r in reach), nl(globals_), nl(sorted(arrs)),
+                                                   nl(ins), nl(outs), nl([c for c in culprits if c is not None])))
+        metas.append({"modules": texts, "reachable": reach, "ins": ins, "outs": outs, "fails": fails, "culprits": culprits})
+        ctx.count(("calltree", texts["ma_mod"], texts["mb_mod"]), ran and len(reach) > 1)
+        ctx.hist("calltree_routines_reached", len(reach))
+    results = coq_eval_values(ctx, CT_HEADER, "ct_case", "ct_eval", cases, shard=ctx.pick(60, 100))
+    mism, reported = [], 0
+    for m, (agree, reasons) in zip(metas, results):
+        if not agree:
+            mism.append(m)
+        it = iter(reasons)
+        rs = [next(it) if c is not None else 99 for c in m["culprits"]]
+        for (culprit, what, detail, store), k in zip(m["fails"], rs):
+            info = {"property": "C12", "stream": "call tree (non-local variables)", "modules": m["modules"],
+                    "entry": "kern", "reported_inputs": m["ins"], "reported_outputs": m["outs"], "culprit_variable": culprit,
+                    "failure": what, "detail": detail, "store": store, "reason_code": k,
+                    "how_to_replay": "write the two modules to a directory, ModuleManager.get().add_search_path(dir); "
+                                     "kern = get_module_info('ma_mod').get_psyir().get_routine_psyir('kern'); "
+                                     "CallTreeUtils()._resolve_calls_and_unknowns(ctu.get_non_local_symbols(kern), ReadWriteInfo()); "
+                                     "run kern (calls inlined) from the store and from a store with every unreported variable changed"}
+            if k not in KEYS:
+                if reported < 3:
+                    ctx.violation(dict(info, why="failure not explained by an established is_written_first gap (model reason %s)" % k))
+                reported += 1
+            else:
+                ctx.hist("finding_reason", KEYS[k] + " (call tree)")
+                ctx.finding(KEYS[k], "%s: module variable '%s' is not reported as input" % (what, culprit), info)
+    ctx.log("call-tree stream: programs=%d list disagreements=%d concrete failures=%d"
+            % (len(cases), len(mism), sum(len(m["fails"]) for m in metas)))
+    ctx.notes["calltree_programs"] = len(cases)
+    if mism and not reported:
+        m = mism[0]
+        ctx.violation({"property": "C12", "broken": "correspondence C12.CallTree.ct_inputs/ct_outputs = "
+                       "CallTreeUtils._resolve_calls_and_unknowns", "modules": m["modules"], "reachable": m["reachable"],
+                       "implementation": {"inputs": m["ins"], "outputs": m["outs"]}, "n_differing": len(mism)}, no_input=True)
+    return len(mism)
+
+
 # ------------------------------------------------------------------ known-finding witnesses
 WITNESSES = [
     ("is_written_first/partial-array-write",
@@ -588,6 +1029,8 @@ def run(ctx):
                        "regions are lists of MiniFortran statements (no calls, no array sections, no derived types)",
                        "replay_sound_partial needs safe (must-define data-flow); outside it only the run-time theorem "
                        "replay_sound_dyn and the per-case evaluation apply"]
+    flags = run_translator()
+    ctx.notes["intrinsics_translated"] = len(flags)
     ok, rep = ctx.prove()
     ctx.log("proof ok=%s discharged=%d/%d" % (ok, ctx.cov["discharged"], ctx.cov["obligations"]))
 
@@ -620,9 +1063,10 @@ def run(ctx):
             for lo, hi in spans:
                 nodes = sched.children[lo:hi]
                 try:
-                    region = xstmts_from_psyir(nodes)
-                except mf.OutOfSubset:
+                    region = xstmts_from_psyir(nodes, bnds)
+                except mf.OutOfSubset as e:
                     n_oos += 1
+                    ctx.hist("out_of_subset", str(e)[:60])
                     continue
                 rtxt = "\n".join(xstmts_to_fortran(region))
                 variants = [(False, impl_ctu(nodes, False))]
@@ -685,11 +1129,17 @@ def run(ctx):
         g = Gen12(rng, max_depth=2)
         prog = g.block({}, 0, False, rng.randint(2, 5))
         c = rng.random()
-        if c < 0.25:
+        if c < 0.2:
             prog.insert(rng.randint(0, len(prog)), g.call({}))
-        elif c < 0.45:
+        elif c < 0.35:
             k = rng.randint(0, len(prog))
             prog[k:k] = g.call_with_partial_write()
+        c = rng.random()
+        if c < 0.3:
+            prog.insert(rng.randint(0, len(prog)), g.wop())
+        elif c < 0.55:
+            k = rng.randint(0, len(prog))
+            prog[k:k] = g.wop_then_overwrite()
         stores = []
         for k in range(nstores):             # array extents are part of the incoming state: vary them
             vals, b = g.store()
@@ -788,6 +1238,7 @@ def run(ctx):
                        "broken": "correspondence C12.InOut.inputs/outputs = get_in_out_parameters" if mism
                        else "proof obligations of Properties/C12.v", "proof_report": rep if not ok else None,
                        "first_differing_case": first, "n_differing": len(mism)}, no_input=True)
+    ctx.cov["disagreements_checked"] += calltree_stream(ctx)
     for r in regions[n_wit:n_wit + 3]:
         v = r["variants"][-1]
         ctx.sample({"region": r["region"], "shape_reads": v["sh"], "inputs": v["ins"], "outputs": v["outs"],
